@@ -2,7 +2,7 @@
 """Regenerates /verif/MANIFEST.json from the table below (keeps the manifest valid and in one place)."""
 import json, subprocess
 
-HOOK_COMMITS = ["c290b2b"]
+HOOK_COMMITS = ["c290b2b", "06f1b1a"]
 
 # id -> (level text, level note, technique, design ref)
 CLAIMED = {
@@ -137,7 +137,7 @@ def main():
         "version": 1,
         "setup_cmd": "./check --setup",
         "hooks": {
-            "guard": "--cfg tyme4rs_verif (memo reset/snapshot/poison probes) and --cfg tyme4rs_verif_loom (loom sync types); both rustc cfg flags, off by default",
+            "guard": "--cfg tyme4rs_verif (memo reset/snapshot/poison probes, decoded leap-month table) and --cfg tyme4rs_verif_loom (loom sync types); both rustc cfg flags, off by default",
             "enable": "RUSTFLAGS='--cfg tyme4rs_verif' via /verif/mc/.cargo/config.toml (path dependency on /repo); '--cfg tyme4rs_verif --cfg tyme4rs_verif_loom' via /verif/mc-loom/.cargo/config.toml (build.rs copies /repo/src/tyme into OUT_DIR rewriting every sync primitive to loom's; fallback feature 'plain' #[path]-includes /repo/src/tyme/mod.rs)",
             "baseline_off_cmd": "cd /repo && (cargo nextest run --workspace --no-fail-fast --test-threads 8 --offline || cargo test --workspace --no-fail-fast --offline)",
             "source_commits": HOOK_COMMITS,
